@@ -1,4 +1,3 @@
-from itertools import starmap
 from math import ceil
 from typing import Any, Generator, Union
 
@@ -163,9 +162,11 @@ class CachedColumn(Edge):
         values, exists = self.disk.get(digest, context)
         if not exists:
             suffix = '' if shards_count == 1 else f' ({shard_idx}/{shards_count})'
-            values = tuple(starmap(self.graph.get_value, tqdm(
+            # a list, not a lazy iterator: `tuple(iterator)` treats a StopIteration raised by a user function
+            #  as the end of the data and silently stores a truncated shard
+            values = tuple([self.graph.get_value(*state) for state in tqdm(
                 states, desc=f'Generating the columns cache{suffix}', disable=not self.verbose,
-            )))
+            )])
             self.disk.set(digest, values, context)
 
         for k, h, value in zip(keys, hashes, values):
